@@ -123,7 +123,13 @@ def _check_model_image(ctx, probe, image, faults, work, trace):
         raise InfraError("probe answered %d of %d model faults" % (len(res), len(faults)))
     for rec, x in zip(faults, res):
         n += 1
-        if x["len"] != rec["len"] or (x["last4"] != rec["last4"] and rec["len"] >= 4) or (rec["len"] > 32 and x["crc"] != rec["crc"]):
+        if x["len"] == rec["len"] and (x["last4"] == rec["last4"] or rec["len"] < 4) and rec["len"] > 32 and x["crc"] != rec["crc"]:
+            # the code's checksum function is not the CRC-32 of the specification: that is drift between code and
+            # specification, not by itself a C12 violation -- whether damaged files are still refused is decided below
+            # and on the compiler-produced files
+            ctx.assumptions.append("DRIFT: nvm_crc32 of the code differs from CRC-32 (NvmLoad.tla) on a damaged model image") \
+                if not any(a.startswith("DRIFT: nvm_crc32") for a in ctx.assumptions) else None
+        elif x["len"] != rec["len"] or (x["last4"] != rec["last4"] and rec["len"] >= 4):
             raise InfraError("probe and model disagree on fault %s: damaged length/tail/checksum %s/%s/%s vs %s/%s/%s "
                              "(fault application or CRC-32 of the code differs from NvmLoad.tla)"
                              % (rec["f"], x["len"], x["last4"], x["crc"], rec["len"], rec["last4"], rec["crc"]))
@@ -245,10 +251,15 @@ def run(ctx):
         summ = [x for x in recs if x.get("k") == "summary"][0]
         if not summ["good_loads"]:
             raise InfraError("nvm_deserialize refuses the undamaged file %s" % f)
+        crc_drift = False
         if summ["internal_errors"]:
-            raise InfraError("nvmfault_probe self-check failed on %s (%d)" % (f, summ["internal_errors"]))
+            # the CrcBit generator relies on the linearity of CRC-32; if its self-check fails the code's checksum is not the
+            # CRC-32 of the specification (drift).  Its cases are then not meaningful, every other class still is.
+            crc_drift = True
+            if not any(a.startswith("DRIFT: CrcBit") for a in ctx.assumptions):
+                ctx.assumptions.append("DRIFT: CrcBit fault generator self-check failed (%d) - the code's checksum is not linear like CRC-32; class skipped" % summ["internal_errors"])
         for x in recs:
-            if x.get("k") == "accepted":
+            if x.get("k") == "accepted" and not (crc_drift and x["cls"] == "CrcBit"):
                 _viol(ctx, "accepted:" + x["cls"],
                       "damaged file accepted by nvm_deserialize (%s build): %s of %s: %s"
                       % (variant, x["cls"], os.path.basename(f), json.dumps(x["desc"])),
